@@ -127,7 +127,8 @@ AgreeClauses(a, b, checkName) ==
   \cup (IF InputNames(a) = InputNames(b) THEN {} ELSE {"inputs"})
   \cup (IF OutputNames(a) = OutputNames(b) THEN {} ELSE {"outputs"})
   \cup (IF PinNets(a) = PinNets(b) THEN {} ELSE {"blackbox_instances_or_pin_nets"})
-  \cup (IF ~(a.acyc /\ b.acyc) \/ NFree(a) > MaxBits THEN {"MACHINERY:not_evaluable"}
+  \cup (IF a.acyc # b.acyc THEN {"one_circuit_is_cyclic"}
+        ELSE IF ~a.acyc \/ NFree(a) > MaxBits THEN {}          \* not evaluable by truth tables: structural clauses only
         ELSE IF FreeNames(a) # FreeNames(b) THEN {"free_signals"}
         ELSE LET U == StdU(a)
                  va == EvalStd(a)
